@@ -153,6 +153,8 @@ def gen_case(rng: random.Random, cfg: str | None = None, max_nodes: int = 8, fra
     spec["edges"] = edges
     if rng.random() < 0.2:
         spec["prebuilt"] = True   # constructed from a pre-built FeatureDict
+    if rng.random() < 0.5:
+        spec["w_unregistered"] = True   # the custom edge feature is registered later (or never)
     return spec
 
 
@@ -229,7 +231,15 @@ def gen_op(rng: random.Random, case: F.Case, tracks, kinds: list[str], always_re
             op["pos"] = rng.randrange(1, 50) if rng.random() < 0.9 else None
         return op
     if kind == "delnode":
-        return {"op": "delnode", "n": pick_node(rng, tracks, True)}
+        n = pick_node(rng, tracks, True)
+        op = {"op": "delnode", "n": n}
+        if case.cfg == "seg" and n in g and rng.random() < 0.3:
+            op["pixels"] = case.pixels_of(tracks, n)   # "the pixels of the node, if known"
+        return op
+    if kind == "regfeat":
+        if rng.random() < 0.6:
+            return {"op": "regfeat", "kind": "node", "key": F.K_NOTE, "how": rng.choice(["setitem", "update", "ior", "setdefault"])}
+        return {"op": "regfeat", "kind": "edge", "key": F.K_W, "how": rng.choice(["setitem", "update", "ior", "setdefault"])}
     if kind == "swap":
         if len(nodes) >= 2 and rng.random() < 0.95:
             a, b = rng.sample(nodes, 2)
